@@ -226,13 +226,20 @@ def project_daqmx(f):
     return view
 
 
-def read_modes(data, modes, TdmsFile, daqmx=False):
-    """-> {mode: view | {"exception": ...}}"""
+def read_modes(data, modes, TdmsFile, daqmx=False, short=None):
+    """-> {mode: view | {"exception": ...}}; short = raw data regions: also an eager read through a raw stream that
+    delivers raw data seven bytes at a time"""
     out = {}
     project = project_daqmx if daqmx else proj.project_file
+    if short is not None and "eager" in modes:
+        modes = list(modes) + ["eager-short"]
     for mode in modes:
         try:
-            if mode == "eager":
+            if mode == "eager-short":
+                from .recstream import ShortReadStream
+                f = TdmsFile.read(ShortReadStream(data, short, 7), raw_timestamps=True)
+                out[mode] = project(f)
+            elif mode == "eager":
                 f = TdmsFile.read(io.BytesIO(data), raw_timestamps=True)
                 out[mode] = project(f)
             elif mode == "lazy":
@@ -335,7 +342,12 @@ def replay_segments_case(case):
                 if sg_["meta"] and (j_ + case["metapad"]) % 2 == 0:
                     sg_["metapad"] = 1 + (case["metapad"] + 3 * j_) % 9
         e = enc.encode(fd, seed)
-        res = read_modes(e.data, case["modes"], TdmsFile, daqmx=bool(dq))
+        short = [(sg_["dataPos"], sg_["nextPos"]) for sg_ in e.segs] \
+            if (case_hash(rec) // 3) % 7 == 0 and rec["status"] == "ok" and \
+            not any(o["ty"] == "String" for sg_ in rec["file"] for o in sg_["layout"]) else None
+        # (texts are read with file.read, which a raw stream may cut short like any metadata read: the library loops only
+        # for fixed-width data, so files holding strings are not read this way)
+        res = read_modes(e.data, case["modes"], TdmsFile, daqmx=bool(dq), short=short)
         for mode, view in res.items():
             n += 1
             if rec["status"] == "rejected":
